@@ -243,6 +243,7 @@ func LengthPrefixString(s string) []byte {
 // further modifications can me made to avoid any state changes in case if error is returned by f -
 // eg, revert state change if error returned by f else work as normal
 func ApplyFuncIfNoError(ctx sdk.Context, f func(ctx sdk.Context) error) (err error) {
+	defer func() { verifStepExit(ctx, err) }()
 	// Add a panic safeguard
 	defer func() {
 		if recoveryError := recover(); recoveryError != nil {
@@ -252,7 +253,6 @@ func ApplyFuncIfNoError(ctx sdk.Context, f func(ctx sdk.Context) error) (err err
 	}()
 	cacheCtx, writeCache := ctx.CacheContext()
 	cacheCtx = verifStepEnter(ctx, cacheCtx)
-	defer func() { verifStepExit(ctx, err) }()
 	err = f(cacheCtx)
 	if err == nil {
 		// write state to the underlying multi-store
